@@ -37,11 +37,18 @@ t1=$(date +%s)
 cat $dst/check.out >> $log
 keys=$(grep -o "key=[^ ]*" $dst/check.out | sort -u | tr '\n' ' ')
 python3 - <<PY
-import json
-json.dump({"property":"$id","patch":"patch.diff","demo":"$demopath","demo_cmd":"""$democmd""",
+import json, os
+old = {}
+if os.path.exists("$dst/meta.json"):
+    try: old = json.load(open("$dst/meta.json"))
+    except Exception: old = {}
+m = {"property":"$id","patch":"patch.diff","demo":"$demopath","demo_cmd":"""$democmd""",
  "confirmed":{"builds":$rc_build==0,"demo_passes_without_change":$rc_without==0,"demo_fails_with_change":$rc_with!=0},
  "check":{"cmd":"VERIF_REPO=<worktree with patch> ./check $id $tier","exit":$rc_check,"detected":$rc_check==1,"keys":"$keys".split(),"wall_s":$t1-$t0},
- "needs":"see notes.md"}, open("$dst/meta.json","w"), indent=1)
+ "needs":"see notes.md"}
+for k in ("needs", "change", "result", "what_was_run"):
+    if k in old and old[k] != "see notes.md": m[k] = old[k]
+json.dump(m, open("$dst/meta.json","w"), indent=1)
 PY
 echo "$id$sfx: build=$rc_build demo_without=$rc_without demo_with=$rc_with check_exit=$rc_check keys=$keys"
 git -C /repo worktree remove --force $wt >/dev/null 2>&1
